@@ -1,29 +1,33 @@
 ----------------------------- MODULE BatcherGen -----------------------------
-(* Behaviour generator for C04: sequences of request shapes x sizer x max.
+(* Behaviour generator for C04: sequences of request payloads (shape x big item x fill) x sizer x max.
 
    Every behaviour is printed as [sizer, max, reqs, expect]:
-     reqs    sequence of <<shape index into StdShapes, flat position of the big item (0 = none)>>
+     reqs    sequence of <<shape index into BatcherShapes, flat position of the big item (0 = none),
+             fill index into StdFills (PayloadFill.tla: which elements are left at their defaults)>>
      expect  items sizer: the parts MergeSplit is specified to return when the requests are folded the
              way the batcher does (BatcherSplit!FoldP), each part a sequence of <<k, j>> (k-th
              request, j-th item of it); bytes sizer: <<>> -- split points are implementation
              freedom there and only the monitor (BatcherTrace.tla) judges the run
    harness/batcher builds real requests of the four signals from the shapes and replays them. *)
-EXTENDS BatcherSplit, TelemetryShape, BatcherGenParams, Json, TLC
+EXTENDS BatcherSplit, PayloadFill, BatcherGenParams, Json, TLC
 
 VARIABLES gconf, greqs
 
+\* abstract weights: a big item 9, an ordinary item 1, an item left at its defaults 0 (a big item is never left so)
 ItemsFor(idx, kb) ==
-  LET ctxs == Flatten(StdShapes[kb[1]])
-  IN [j \in 1..Len(ctxs) |-> [id |-> <<idx, j>>, ctx |-> ctxs[j], w |-> IF j = kb[2] THEN 9 ELSE 1]]
+  LET ctxs == Flatten(BatcherShapes[kb[1]])
+  IN [j \in 1..Len(ctxs) |-> [id |-> <<idx, j>>, ctx |-> ctxs[j],
+                              w |-> IF j = kb[2] THEN 9 ELSE IF Chosen(StdFills[kb[3]].item, j) THEN 0 ELSE 1]]
 
 BigChoices(sizer, k) ==
   IF sizer = "bytes"
-    THEN 0..(IF ItemCount(StdShapes[k]) < ParamBigMax THEN ItemCount(StdShapes[k]) ELSE ParamBigMax)
+    THEN 0..(IF ItemCount(BatcherShapes[k]) < ParamBigMax THEN ItemCount(BatcherShapes[k]) ELSE ParamBigMax)
     ELSE {0}
 
 GInit == gconf \in ParamConfs /\ greqs = <<>>
 GNext == /\ Len(greqs) < ParamN
-         /\ \E k \in ParamShapeSel : \E b \in BigChoices(gconf[1], k) : greqs' = Append(greqs, <<k, b>>)
+         /\ \E k \in ParamShapeSel : \E b \in BigChoices(gconf[1], k) : \E f \in ParamFillSel :
+               greqs' = Append(greqs, <<k, b, f>>)
          /\ UNCHANGED gconf
 GenSpec == GInit /\ [][GNext]_<<gconf, greqs>>
 
